@@ -25,6 +25,27 @@ fn tiny_spec(run_seed: u64) -> PipeSpec {
     }
     s.cfg.threads = r.range(1, 2) as u32;
     s.cfg.bufwriter_cap = *r.pick(&[1u64, 7, 4096, 4 << 20]);
+    // swarm dimensions added later (drawn last so that earlier sources keep their shape):
+    // diagnostics level, library-API driver with generated drain / sync_and_flush points,
+    // benign short writes / EINTR underneath the failing fault
+    s.cfg.verbosity = *r.pick(&[0u32, 0, 0, 1, 2, 2, 3]);
+    if r.pct(25) {
+        let w = crate::gen::genome::generate(&s.gen);
+        let total: u64 = w.samples.iter().map(|x| x.contigs.len() as u64).sum();
+        let n = r.range(0, 3);
+        let mut calls: Vec<(u32, u8)> = (0..n).map(|_| (r.below(total + 1) as u32, r.below(2) as u8)).collect();
+        calls.sort();
+        s.api = Some(pipeline::ApiPlan { calls, concatenated: r.pct(50), adaptive: r.pct(20) });
+    }
+    if r.pct(25) {
+        s.faults = pipeline::BenignFaults {
+            short_write_pct: *r.pick(&[10u8, 50]),
+            eintr_write_pct: *r.pick(&[0u8, 5, 20]),
+            short_read_pct: 0,
+            eintr_read_pct: 0,
+            seed: r.next(),
+        };
+    }
     s
 }
 
@@ -86,6 +107,11 @@ fn explore(source_spec: PipeSpec, only: Option<HardFault>, index: u64, want_samp
     r.count("sources", 1);
     r.count("source_archive_bytes", src.bytes.len() as u64);
     r.count(&format!("bufwriter_cap.{}", src.spec.cfg.bufwriter_cap), 1);
+    r.count(&format!("verbosity.{}", src.spec.cfg.verbosity), 1);
+    r.count(if src.spec.api.is_some() { "driver.library_api" } else { "driver.cli" }, 1);
+    if src.spec.faults.short_write_pct > 0 {
+        r.count("sources_with_benign_write_faults", 1);
+    }
     r.max("max_write_calls", src.write_calls);
     let vs = variants(&src, only.as_ref());
     let arch_id = seed::fnv64(&src.bytes);
@@ -152,7 +178,7 @@ impl Prop for C15 {
     fn engine(&self) -> &'static str { "fault-enum" }
     fn level(&self) -> &'static str { "fault_enumeration" }
     fn rule(&self) -> &'static str {
-        "each evaluation = one create run with one injected failing write: for every sampled source (tiny seeded workload x BufWriter capacity in {1,7,4096,4MiB}) the first failing write is placed at EVERY byte offset 0..=len of the archive (ENOSPC/EFBIG: the write reaching the offset is cut there, later writes fail), at every write-call index (sticky EIO, and transient EIO/ENOSPC that fails once) and at every flush-call index (EIO); oracle: create returns Err, or returns Ok with a file byte-identical to the fault-free archive. distinct_nontrivial = distinct (source archive digest, fault kind, position) triples."
+        "each evaluation = one create run with one injected failing write: for every sampled source (tiny seeded workload x BufWriter capacity in {1,7,4096,4MiB} x verbosity 0..3 x CLI driver or library API with drain/sync_and_flush at generated points x benign short writes/EINTR underneath on or off) the first failing write is placed at EVERY byte offset 0..=len of the archive (ENOSPC/EFBIG: the write reaching the offset is cut there, later writes fail), at every write-call index (sticky EIO, and transient EIO/ENOSPC that fails once) and at every flush-call index (EIO); oracle: create returns Err, or returns Ok with a file byte-identical to the fault-free archive. distinct_nontrivial = distinct (source archive digest, fault kind, position) triples."
     }
     fn runs(&self, tier: Tier) -> u64 {
         match tier { Tier::Quick => 640, Tier::Thorough => 40_000 }
